@@ -740,7 +740,11 @@ def c03(res, tier, seed, deep):
                 items.append((r + f" #search{i}", f, outs[i] if i < len(outs) else "<no-output>", hm.get(f, True)))
         res.tag("multi_worker_runs")
     check_lines(res, "C03", items)
-    return "searches through the hook on legal positions with a legal move: (1) one worker, depths 1-3, tiny to small tables (so buckets overflow) — exact event-sequence equality with the Lean model; (2) chains of searches sharing one artifact over positions that differ only in castling rights / en-passant state (incl. the former illegal-castling witness); (3) 2-32 real worker threads, fresh and reused memory; spec: every reported line is non-empty and legal move by move per the mailbox rules, at least one report per search that completed an iteration"
+    # (4) real multi-threaded runs replayed against the interleaving semantics: the ticket-ordered log of table
+    # operations must be an `Interleaving` of the model's workers and the events must be those the model derives
+    import ilcheck
+    ilcheck.run(res, tier, seed, deep)
+    return "searches through the hook on legal positions with a legal move: (1) one worker, depths 1-3, tiny to small tables (so buckets overflow) — exact event-sequence equality with the Lean model; (2) chains of searches sharing one artifact over positions that differ only in castling rights / en-passant state (incl. the former illegal-castling witness); (3) 2-32 real worker threads, fresh and reused memory; spec: every reported line is non-empty and legal move by move per the mailbox rules, at least one report per search that completed an iteration; (4) 2-32 real threads with the table-operation log replayed against the interleaving semantics (every worker re-run in the model under the environment the log induces; log and events must match exactly)"
 
 
 def c04(res, tier, seed, deep):
